@@ -246,8 +246,8 @@ func (spread GradientSpread) repeatRadial(width, height Fl, points [6]Fl, positi
 		points[5] = points[5] + gradientLength*Fl(repeatAfter)
 	}
 
-	if points[2] == 0 {
-		// Inner circle has 0 radius, no need to repeat inside, return
+	if points[2] <= 0 {
+		// Inner circle has 0 radius (or an invalid negative one), no need to repeat inside, return
 		return points, positions, colors
 	}
 
